@@ -57,6 +57,11 @@ type Sim struct {
 	// the clock advance). The system is not necessarily quiescent at that point:
 	// call synctest.Wait() first if ground truth is read. It must not call Step.
 	OnStep func()
+	// ClockOffset is added to the bubble clock when SQLite's 'now' is set before
+	// every step: a scenario can start SQLite's wall clock next to a day/year
+	// boundary or step it (wall-clock jump fault) without simulating the idle
+	// time. Zero = SQLite's clock equals the bubble clock.
+	ClockOffset time.Duration
 }
 
 func New(c *core.Ctx) *Sim {
@@ -129,7 +134,7 @@ func (s *Sim) Step() {
 	}
 	synctest.Wait()
 	s.collect()
-	simclock.Set(time.Now())
+	simclock.Set(time.Now().Add(s.ClockOffset))
 	if s.OnStep != nil {
 		defer s.OnStep()
 	}
